@@ -285,7 +285,7 @@ fn run_xyb(ctx: &Ctx, roundtrip: bool) {
     });
     // single images of more than 2^20 and more than 2^24 pixels (where pixel counts stop being exact in f32;
     // thorough: also more than 2^25), judged at their first and last pixels and at random positions
-    let big_sizes: &[usize] = if ctx.flag("lite") { &[] } else if ctx.tier == crate::Tier::Thorough { &[(1 << 20) + 13, 4129 * 4129, (1 << 25) + 5] } else { &[(1 << 20) + 13, 4129 * 4129] };
+    let big_sizes: &[usize] = if ctx.flag("lite") && ctx.flag("big") { &[(1 << 20) + 13] } else if ctx.flag("lite") { &[] } else if ctx.tier == crate::Tier::Thorough { &[(1 << 20) + 13, 4129 * 4129, (1 << 25) + 5] } else { &[(1 << 20) + 13, 4129 * 4129] };
     for &n in big_sizes {
         let mut rng = Rng::new(ctx.seed, 0xB16_C04 + n as u64);
         let big: Vec<[f32; 3]> = (0..n as u64).map(|i| gen_px(&mut rng, [2u64, 1, 6, 7, 4, 2, 7, 5][(i % 8) as usize], i).map(|c| if roundtrip { c.clamp(0.0, 1.0) } else { c.clamp(0.0, 4.0) })).collect();
